@@ -508,8 +508,8 @@ MODELLED = ["MACD", "BollingerBands", "Aroon", "RelativeStrengthIndex", "Stochas
 UNMODELLED = []
 
 IND_CLASSES = {
-    "C05": ("ind-init", "ind-value", "ind-panic", "ind-shape"),
-    "C06": ("ind-signal",),
+    "C05": ("ind-init", "ind-value", "ind-panic", "ind-shape", "ind-docval"),
+    "C06": ("ind-signal", "ind-docsig"),
     "C12": ("ind-range", "ind-finite", "range"),
 }
 
